@@ -34,7 +34,9 @@ H = lambda n, v=None, opt=False: {"opt": opt, "name": n, "val": [] if v is None 
 OBS_ALPHA = [H("A"), H("A", "x"), H("B"), H("B", "y"), H("C"), H("C", "")]
 SIG_ALPHA = [H("A"), H("A", opt=True), H("A", "x"), H("A", "x", True), H("B"), H("B", opt=True), H("B", "y"), H("B", "y", True),
              H("C", opt=True), H("C", ""), H("D", opt=True)]
-SW = ["", "a", "b", "ab", "ba", "aa", "aab", "abab", "Firefox/", "Mozilla/5.0 Firefox/3.0", "Fire", "Apache", "apache"]
+SW = ["", "a", "b", "ab", "ba", "aa", "aab", "abab", "Firefox/", "Mozilla/5.0 Firefox/3.0", "Fire", "Apache", "apache",
+      # long strings that share their first 63 / 64 / 65 characters
+      "Z" * 63, "Z" * 64, "Z" * 65, "Z" * 64 + "tail", "pre" + "Z" * 64 + "post", "Z" * 64 + "tail-and-more", "Z" * 200]
 
 
 def run(tier, v):
